@@ -53,14 +53,28 @@ def utilities(draw, info, alts, betas_pool, max_terms=3):
 
 
 @st.composite
-def availabilities(draw, info, alts):
-    """None (full choice set) or [[alt, spec]] using the table's availability columns."""
+def availabilities(draw, info, alts, table=None):
+    """None (full choice set) or [[alt, spec]] using the table's availability columns. With the table at hand,
+    alternatives that no row chooses may be switched off by a plain 0, and the whole dictionary may consist of
+    plain Python numbers."""
     if draw(st.floats(0, 1)) < 0.2:
         return None
+    never_chosen = set()
+    if table is not None and info.get('choice'):
+        chosen = {int(v) for c in table['columns'] if c[0] == info['choice'] for v in c[2]}
+        never_chosen = {a for a in alts if a not in chosen}
+    all_plain = bool(never_chosen) and draw(st.floats(0, 1)) < 0.25
     out = []
     for a in alts:
-        kind = draw(st.sampled_from(['col', 'col', 'col', 'one', 'lit']))
-        if kind == 'col':
+        if all_plain:
+            out.append([a, ['Lit', 0 if a in never_chosen and draw(st.booleans()) else 1]])
+            continue
+        kind = draw(st.sampled_from(['col', 'col', 'col', 'one', 'lit'] + (['zero', 'zero_lit'] if a in never_chosen else [])))
+        if kind == 'zero':
+            out.append([a, ['Num', 0]])
+        elif kind == 'zero_lit':
+            out.append([a, ['Lit', 0]])
+        elif kind == 'col':
             out.append([a, ['Var', info['av'][str(a)]]])
         elif kind == 'one':
             out.append([a, ['Num', 1]])
